@@ -584,8 +584,12 @@ fn main() {
             driver::write_evidence_json("C15", &ev);
             0
         },
+        // builds everything for Miri and exits (tools/miri_engine.sh uses it to separate build
+        // failures from verdicts)
+        "miri-noop" => 0,
         "miri-scenario" => {
             let seed: u64 = args.positional.first().and_then(|s| s.parse().ok()).unwrap_or(1);
+            verifsim::env::install_quiet_panic_hook();
             c15::miri_scenario(seed)
         },
         "selftest" => {
